@@ -28,6 +28,7 @@ pub mod fri;
 pub mod gates;
 pub mod lookup;
 pub mod merkle;
+pub mod modelsearch;
 pub mod plonk;
 pub mod plonkv;
 pub mod transcript;
